@@ -10,8 +10,9 @@
                      of the canonical to_json without the four file-label fields)
      Fs     {op, cls}      one file-system effect, cls = class of os.path.realpath(path) against the
                            private directories created through tempfile under the worker's TMPDIR
-     CNext  {out: "item" | "stop" | "raise", m, fn, path, dg, canary}   next(gen); m = member whose
-                           archive!/member path the result carries (0 = no member has that path)
+     CNext  {out: "item" | "stop" | "raise", m, fn, path, dg, canary, own}   next(gen); m = member whose
+                           archive!/member path the result carries (0 = no member has that path);
+                           own = members whose unique token words occur in the result's to_json
      CClose {out} CThrow {out, ...item fields} CDrop      gen.close() / gen.throw(RuntimeError) / del + gc
      Final  {left, hostchg}    entries left under TMPDIR, host canary files changed
 
@@ -42,12 +43,13 @@ ItemOK(e) ==
   IF Mode = "confine" THEN e.m \in 0..Len(ms) ELSE
     /\ e.m \in 1..Len(ms)                                          \* it carries some member's path
     /\ e.m >= LastM                                                \* archive order
-    /\ Contribution(ms[e.m]) = "must" =>
+    /\ ContribAt(ms, e.m) = "must" =>
          /\ Count(e.m) < nd[e.m]                                   \* not duplicated
          /\ e.fn = ExpBase(e.m) /\ e.path = ExpPath(e.m)           \* labelled as itself
          /\ e.dg = H.members[e.m].direct[Count(e.m) + 1]           \* identical to extracting it directly
 Deliver(e) == /\ ItemOK(e)
-              /\ results' = Append(results, [m |-> e.m, src |-> IF e.canary = 1 THEN "host" ELSE "archive"])
+              /\ results' = Append(results, [m |-> e.m, src |-> IF e.canary = 1 THEN "host" ELSE "archive",
+                                             own |-> { e.own[q] : q \in DOMAIN e.own }])
               /\ got' = got + 1 /\ gen' = "suspended"
 
 Live == gen \in {"fresh", "suspended"}
